@@ -53,6 +53,7 @@ class Profile:
         self.preload = 0  # max unrelated events preloaded per bus by a dedicated first actor
         self.burst = [2, 3, 5]
         self.acc_names = ['event_result', 'event_results_list', 'event_results_by_handler_name']  # accessors the 'acc' actor op may call
+        self.fwdreplica = 0.0  # probability that a handler forwards a replica (same id, other object) of the event it is handling
         self.shadow = 0.0  # probability that a second, unused bus is requested with the name of an existing one
         self.hredisp = 0.0  # probability that a handler program re-dispatches an existing root event object (a 'retry this job' handler)
         self.fan = 0.0  # probability that one root handler fans out more children than the bus accepts (back-pressure inside a handler)
@@ -99,6 +100,8 @@ def handler_prog(draw, p: Profile, nb: int, level: int, maxdepth: int, is_async:
             ops.append(op)
         elif k == 'awaitall':
             ops.append(['awaitall'])
+    if p.fwdreplica and nb > 1 and chance(draw, p.fwdreplica):
+        ops.insert(draw(st.integers(0, len(ops))), ['fwdreplica', draw(st.integers(0, nb - 1))])
     if p.hredisp and chance(draw, p.hredisp):
         ops.insert(draw(st.integers(0, len(ops))), ['hredisp', draw(st.integers(0, 7)), draw(st.integers(0, nb - 1))])
     if p.raises and chance(draw, p.raises):
@@ -186,6 +189,8 @@ def scenario(draw, p: Profile):
                 ops.append(['awaitdesc', draw(st.integers(0, 7)), draw(st.integers(0, 7))])
             elif k == 'redisp':
                 ops.append(['redisp', draw(st.integers(0, 7)), draw(st.integers(0, nb - 1))])
+            elif k == 'replay':
+                ops.append(['replay', draw(st.integers(0, 7)), draw(st.integers(0, nb - 1))])
             elif k == 'status':
                 ops.append(['status', draw(st.integers(0, 7))])
             elif k == 'idle':
